@@ -324,10 +324,6 @@ def expect(spec: dict) -> tuple:
     raise core.HarnessError(f'C18: no expectation rule for spec {spec!r}')
 
 
-def spec_dim(spec: dict) -> int:
-    return _prod(expect(spec)[0])
-
-
 def build(spec: dict):
     """Construct the BQSKit gate a spec describes."""
     G = _G()
